@@ -50,6 +50,13 @@ func Main(m *testing.M, gen func(hx.Args), run func(t *testing.T, toks []string)
 	os.Exit(code)
 }
 
+// RealDeadline is the real-time limit of one op (a bubble that never becomes quiescent, e.g. a goroutine spinning
+// while virtual time stands still, ends as HANG). DeadlineFor, when set, chooses it per op.
+var (
+	RealDeadline = 40 * time.Second
+	DeadlineFor  func(toks []string) time.Duration
+)
+
 // RunTest is the body of TestSim: one synctest bubble per op line.
 func RunTest(t *testing.T) {
 	sc := bufio.NewScanner(os.Stdin)
@@ -60,7 +67,13 @@ func RunTest(t *testing.T) {
 			continue
 		}
 		toks := strings.Fields(line)
-		res := Bubble(t, 40*time.Second, func(t *testing.T) string { return runFn(t, toks) })
+		dl := RealDeadline
+		if DeadlineFor != nil {
+			if d := DeadlineFor(toks); d > 0 {
+				dl = d
+			}
+		}
+		res := Bubble(t, dl, func(t *testing.T) string { return runFn(t, toks) })
 		hx.Emit("%s | %s", line, res)
 		hx.Flush()
 	}
@@ -84,17 +97,22 @@ func Bubble(t *testing.T, realDeadline time.Duration, f func(t *testing.T) strin
 					msg = msg[:i]
 				}
 				_ = debug.Stack
-				ch <- "PANIC:" + strings.ReplaceAll(msg, " ", "_")
+				out := "PANIC:" + strings.ReplaceAll(msg, " ", "_")
+				if p := Partial.Load(); p != nil {
+					t := (*p)()
+					if len(t) > 6000 {
+						t = t[len(t)-6000:]
+					}
+					out += " tail: " + t
+				}
+				ch <- out
 			}
 		}()
 		var res string
 		synctest.Test(t, func(t *testing.T) { res = f(t) })
 		ch <- res
 	}()
-	select {
-	case r := <-ch:
-		return r
-	case <-time.After(realDeadline):
+	hang := func() string {
 		if p := Partial.Load(); p != nil {
 			s := (*p)()
 			if f := os.Getenv("VERIF_HANGLOG"); f != "" {
@@ -107,4 +125,24 @@ func Bubble(t *testing.T, realDeadline time.Duration, f func(t *testing.T) strin
 		}
 		return "HANG"
 	}
+	deadline := time.After(realDeadline)
+	tick := time.NewTicker(2 * time.Second)
+	defer tick.Stop()
+	for {
+		select {
+		case r := <-ch:
+			return r
+		case <-tick.C:
+			if g := GiveUp.Load(); g != nil && (*g)() {
+				return hang()
+			}
+		case <-deadline:
+			return hang()
+		}
+	}
 }
+
+// GiveUp, when set by a scenario, is polled from outside the bubble every two seconds of real time; when it
+// reports true the op ends as HANG at once instead of waiting for the real deadline (a scenario that can tell
+// that it will never become quiescent, e.g. a goroutine spinning while virtual time stands still).
+var GiveUp atomic.Pointer[func() bool]
